@@ -572,7 +572,10 @@ func c17SelectBlock(c *Ctx) {
 		ws = append(ws, [2]int{0, n})
 		want = append(want, vals...)
 		lastOf = vals[n-1]
-		d := tvMap("str", [][2]any{{hx("ws"), tvWin(base, ws...)}})
+		d := tvMap("str", [][2]any{{hx("ws"), tvWin(base, ws...)}, {hx("gs"), tvWinKey("ids", base, ws...)}})
+		c.Do(Case{Q: `$.gs.Select("$.ids")`, D: d, XK: "logical", X: c17List(want), Cls: "Select-windows-of-one-array", InDomain: true})
+		c.Do(Case{Q: `$.gs.Select("$.ids").Last()`, D: d, XK: "logical", X: logicalDoc(lastOf), Cls: "Select-windows-of-one-array", InDomain: true})
+		c.Do(Case{Q: `$.gs.Last().ids.Last()`, D: d, XK: "logical", X: logicalDoc(lastOf), Cls: "Select-windows-of-one-array", InDomain: true})
 		c.Do(Case{Q: `$.ws.Select("$")`, D: d, XK: "logical", X: c17List(want), Cls: "Select-windows-of-one-array", InDomain: true})
 		c.Do(Case{Q: `$.ws.Select("$").Last()`, D: d, XK: "logical", X: logicalDoc(lastOf), Cls: "Select-windows-of-one-array", InDomain: true})
 		c.Do(Case{Q: `$.ws.Last().Last()`, D: d, XK: "logical", X: logicalDoc(lastOf), Cls: "Select-windows-of-one-array", InDomain: true})
